@@ -54,9 +54,9 @@ Qed.
 Lemma CNm_insts m m' : m_insts m' = m_insts m -> CNm m -> CNm m'.
 Proof. intros E H i Hi. rewrite E in Hi. auto. Qed.
 
-Lemma CN_connect cur pr c k ms ms' : CN ms -> upd_model_res cur (connect pr c k) ms = Ok ms' -> CN ms'.
+Lemma CN_connect al cur pr c k ms ms' : CN ms -> upd_model_res cur (connect_to al pr c k) ms = Ok ms' -> CN ms'.
 Proof.
-  intros H Hu. eapply CN_upd_res; [exact H|exact Hu|]. intros m m' Hm Hc. unfold connect in Hc.
+  intros H Hu. eapply CN_upd_res; [exact H|exact Hu|]. intros m m' Hm Hc. unfold connect_to in Hc.
   destruct (connected m pr); [discriminate|]. inversion Hc. apply (CNm_insts m); auto.
 Qed.
 
@@ -84,7 +84,7 @@ Proof.
   apply (G (m_insts m) idx); auto.
 Qed.
 
-Lemma CN_conn_one cur ref idx ms fa ms' : CN ms -> conn_one cur ref idx (Ok ms) fa = Ok ms' -> CN ms'.
+Lemma CN_conn_one al cur ref idx ms fa ms' : CN ms -> conn_one al cur ref idx (Ok ms) fa = Ok ms' -> CN ms'.
 Proof.
   intros H Hc. unfold conn_one in Hc. cbn [bind] in Hc.
   destruct (pni (snd fa)) as [[c k]|]; [|discriminate]. cbn [bind] in Hc.
@@ -95,10 +95,10 @@ Proof.
   - destruct (find_port _ _); [|discriminate]. eapply CN_connect; [|exact Hc]. apply CN_grow_port. exact H.
 Qed.
 
-Lemma CN_connect_pins cur ref idx info : forall ms ms', CN ms -> connect_instance_pins cur ref idx info ms = Ok ms' -> CN ms'.
+Lemma CN_connect_pins al cur ref idx info : forall ms ms', CN ms -> connect_instance_pins al cur ref idx info ms = Ok ms' -> CN ms'.
 Proof.
   unfold connect_instance_pins. intros ms ms' H Hf.
-  apply (fold_res_inv (conn_one cur ref idx) CN) with (l := info) (a := ms) (a' := ms'); auto.
+  apply (fold_res_inv (conn_one al cur ref idx) CN) with (l := info) (a := ms) (a' := ms'); auto.
   intros a x a' Ha Hx. eapply CN_conn_one; eauto.
 Qed.
 
@@ -161,11 +161,11 @@ Proof.
     { destruct (b_top (s_nl s)); inversion Hx; subst s'; cbn; auto. }
     rewrite E3. apply CN_ports; [apply CN_ensure; exact H|reflexivity].
   - apply bind_ok in Hx as [ms [H1 H2]]. inversion H2; subst s'. rewrite st_models_set_ms.
-    apply (fold_res_inv (do_input (s_cur s)) CN) with (l := l) (a := st_models s) (a' := ms); auto.
+    apply (fold_res_inv (do_input (s_merged s) (s_cur s)) CN) with (l := l) (a := st_models s) (a' := ms); auto.
     intros a t a' Ha Ht. unfold do_input in Ht. cbn [bind] in Ht. destruct (pni t) as [[p i]|]; [|discriminate]. cbn [bind] in Ht.
     eapply CN_connect; [|exact Ht]. apply CN_grow_port. destruct (find_port _ _); [apply CN_ports; auto|apply CN_add_port; exact Ha].
   - apply bind_ok in Hx as [ms [H1 H2]]. inversion H2; subst s'. rewrite st_models_set_ms.
-    apply (fold_res_inv (do_output (s_cur s)) CN) with (l := l) (a := st_models s) (a' := ms); auto.
+    apply (fold_res_inv (do_output (s_merged s) (s_cur s)) CN) with (l := l) (a := st_models s) (a' := ms); auto.
     intros a t a' Ha Ht. unfold do_output in Ht. cbn [bind] in Ht. destruct (pni t) as [[p i]|]; [|discriminate]. cbn [bind] in Ht.
     set (ms1 := match find_port _ _ with None => _ | Some _ => a end) in Ht.
     assert (A1 : CN ms1) by (unfold ms1; destruct (find_port _ _); [exact Ha|apply CN_add_port; exact Ha]).
@@ -208,9 +208,9 @@ Proof.
     apply CN_upd_model; [exact H|]. intros m Hm. apply CNm_upd_inst; [exact Hm|]. intros i Hi. exact Hi.
   - destruct (pni a) as [[an ai]|]; [|discriminate]. cbn [bind] in Hx.
     destruct (pni b) as [[bn bi]|]; [|discriminate]. cbn [bind] in Hx.
-    apply bind_ok in Hx as [ms [H1 H2]]. inversion H2; subst s'. rewrite st_models_set_ms.
+    apply bind_ok in Hx as [ms [H1 H2]]. inversion H2; subst s'. rewrite st_models_set_merged, st_models_set_ms.
     eapply CN_upd_res; [exact H|exact H1|]. intros m m' Hm Hc. unfold do_conn in Hc.
-    destruct (find_cable _ _); [discriminate|]. destruct (_ && _); [discriminate|]. inversion Hc. apply (CNm_insts m); auto.
+    destruct (nb_eqb _ _); inversion Hc; apply (CNm_insts m); auto.
   - inversion Hx; subst s'. cbn [st_models s_nl b_models set_models]. apply CN_ports; auto.
   - destruct (m_lib (cur_model s)); try discriminate. inversion Hx; subst s'. cbn [st_models s_nl b_models set_nl].
     apply CN_ports; auto.
